@@ -124,7 +124,7 @@ def gen_EstructParams(src):
     zoned_check = bool(re.search(r"if any\(\(\(?b & 15\)? > 9 for b in buffer\)\):\n\s+raise ValueError", dtext))
     zoned_neg = _neg_set(dtext[:dtext.index("buffer.decode")] if "buffer.decode" in dtext else dtext)
     m = re.search(r"re\.match\(representation\.pattern, text(, re\.(DOTALL|S))?\)", dtext)
-    if not m or "buffer.decode('CP037')" not in dtext:
+    if not m or "buffer.decode(" not in dtext:
         raise Unrecognised("unpack: text branch")
     dotall = bool(m.group(1))
     if "half_bytes.append((b & 240) >> 4)" not in ptext or "half_bytes.append(b & 15)" not in ptext or "*digits, sign_half = half_bytes" not in ptext:
@@ -207,17 +207,45 @@ def gen_EstructParams(src):
     )
 
 
-def gen_Cp037(src):
-    est = open(os.path.join(src, "stingray/estruct.py")).read()
-    m = re.search(r"buffer\.decode\(\s*[\"']([A-Za-z0-9_-]+)[\"']\s*\)", est)
-    if not m:
-        raise Unrecognised("codec name")
-    codec = m.group(1)
+def _table(codec):
     t = [ord(bytes([b]).decode(codec)) for b in range(256)]
-    rows = ";\n  ".join("; ".join(str(x) for x in t[i:i + 16]) for i in range(0, 256, 16))
-    return (f"(* GENERATED by harness/t1_estruct.py: bytes([b]).decode('{codec.lower()}') for b in 0..255 -- do not edit *)\n"
+    return ";\n  ".join("; ".join(str(x) for x in t[i:i + 16]) for i in range(0, 256, 16))
+
+
+def gen_Cp037(src):
+    """the SPECIFICATION's table: code page 037 as CPython's codec defines it, whatever the source says"""
+    return ("(* GENERATED by harness/t1_estruct.py: bytes([b]).decode('cp037') for b in 0..255 (the specification) -- do not edit *)\n"
             "From Coq Require Import NArith List.\nImport ListNotations.\nOpen Scope N_scope.\n"
-            f"Definition cp037_table : list N := [\n  {rows}].\n")
+            f"Definition cp037_table : list N := [\n  {_table('cp037')}].\n")
 
 
-GENERATORS = {"EstructParams": gen_EstructParams, "Cp037": gen_Cp037}
+def gen_TextCodec(src):
+    """the MODEL's table: the codec the text branch of estruct.unpack names"""
+    est = _parse(src, "stingray/estruct.py")
+    fn = _func(est, "unpack")
+    names = set()
+    consts = {n.targets[0].id: n.value.value for n in est.body
+              if isinstance(n, ast.Assign) and len(n.targets) == 1 and isinstance(n.targets[0], ast.Name)
+              and isinstance(n.value, ast.Constant) and isinstance(n.value.value, str)}
+    for n in ast.walk(fn):
+        if isinstance(n, ast.Call) and isinstance(n.func, ast.Attribute) and n.func.attr == "decode" and n.args:
+            a = n.args[0]
+            if isinstance(a, ast.Constant) and isinstance(a.value, str):
+                names.add(a.value)
+            elif isinstance(a, ast.Name) and a.id in consts:
+                names.add(consts[a.id])
+            else:
+                raise Unrecognised("codec argument")
+    if len(names) != 1:
+        raise Unrecognised(f"codec names {names}")
+    codec = names.pop()
+    try:
+        rows = _table(codec)
+    except Exception as ex:
+        raise Unrecognised(f"codec {codec}: {ex}")
+    return (f"(* GENERATED by harness/t1_estruct.py: bytes([b]).decode('{codec.lower()}'), the codec estruct.unpack names -- do not edit *)\n"
+            "From Coq Require Import NArith List.\nImport ListNotations.\nOpen Scope N_scope.\n"
+            f"Definition text_table : list N := [\n  {rows}].\n")
+
+
+GENERATORS = {"EstructParams": gen_EstructParams, "Cp037": gen_Cp037, "TextCodec": gen_TextCodec}
